@@ -141,7 +141,9 @@ theorem raw_read_ok_iff (p : Profile) (m : Mem) (hwf : m.WF) (s e : Nat) :
 `addr + len` does not overflow, the whole range exists and every byte is writable.  On success
 exactly the range is replaced by `buf` (protection and observers untouched) and the observers
 fired are those of `notify_all(addr .. addr+len)`; every failure is an `Err` — `InvalidAddress`
-first, then `AddressNotWritable` — and (next theorem) leaves the memory as it was. -/
+first, then `AddressNotWritable`.  (That a failing call leaves the real memory untouched is NOT
+a theorem: the model's result type carries no post-state on failure; it is checked on the
+implementation by the harness after every call — see `partial`.) -/
 theorem raw_write_ok_iff (p : Profile) (m : Mem) (hwf : m.WF) (addr : Nat) (buf : Bytes) :
     let inside := addr + buf.length < 2 ^ 64 ∧ addr + buf.length ≤ m.raw.length
     (inside → m.allWritable addr (addr + buf.length) →
@@ -195,16 +197,6 @@ theorem raw_write_frame (p : Profile) (m m' : Mem) (hwf : m.WF) (addr : Nat) (bu
     · cases h
   · have := (raw_write_ok_iff p m hwf addr buf).2.1 hin
     rw [this] at h; cases h
-
-/-- **on error memory unchanged and no observer fired**: the state transition of a failing
-`write_raw` call is the identity and its fired list is empty. -/
-theorem raw_write_err_unchanged (p : Profile) (m : Mem) (addr : Nat) (buf : Bytes)
-    (h : ∀ r, m.writeRaw p addr buf ≠ .ok r) :
-    m.afterWrite (m.writeRaw p addr buf) = (m, []) := by
-  unfold Mem.afterWrite
-  split
-  · next m' fired heq => exact absurd heq (h _)
-  · rfl
 
 example : (Mem.mk [1, 2, 3, 4] ⟨[0xFF#8], 4⟩ [(1, 3)]).writeRaw .dev 2 [9, 9] =
     .ok (⟨[1, 2, 9, 9], ⟨[0xFF#8], 4⟩, [(1, 3)]⟩, [0]) := by decide
@@ -366,7 +358,7 @@ def C20_string_roundtrip_full_statement : Prop :=
 
 /-- **typed_roundtrip (strings)**: an ASCII string without NUL that fits the register is stored
 NUL-padded to `len` bytes and read back unchanged; a non-ASCII or too long string is refused
-with `InvalidRegisterData` (memory untouched).  Strings containing NUL are outside this theorem
+with `InvalidRegisterData`.  Strings containing NUL are outside this theorem
 (known finding F-C20-5: accepted, read back truncated). -/
 theorem typed_roundtrip_string_partial (len address : Nat) (ar : AccessRight) (m : Mem) (s : Bytes)
     (hin : address + len ≤ m.raw.length) :
@@ -376,8 +368,7 @@ theorem typed_roundtrip_string_partial (len address : Nat) (ar : AccessRight) (m
       m.write r s = .ok ({ m with raw := raw' }, m.notifyAll address (address + len)) ∧
       ({ m with raw := raw' } : Mem).read r = .ok s ∧
       ∀ i, i < address ∨ address + len ≤ i → raw'[i]? = m.raw[i]?) ∧
-    (isAscii s = false ∨ len < s.length →
-      m.write r s = .err .invalidRegisterData ∧ m.afterWrite (m.write r s) = (m, [])) := by
+    (isAscii s = false ∨ len < s.length → m.write r s = .err .invalidRegisterData) := by
   intro r
   refine ⟨fun ha hn hl => ?_, fun hbad => ?_⟩
   · obtain ⟨d, hs, hd, hdeq, hp⟩ := str_codec len s ha hn hl
@@ -385,12 +376,10 @@ theorem typed_roundtrip_string_partial (len address : Nat) (ar : AccessRight) (m
       hs hd hp hin
     subst hdeq
     exact ⟨mem_write_ok m r s _ h1, h2, h4⟩
-  · have h1 : m.write r s = .err .invalidRegisterData :=
-      mem_write_err m r s _ (default_write_err address len _ s m.raw _ (str_refused len s hbad))
-    exact ⟨h1, by rw [h1]; rfl⟩
+  · exact mem_write_err m r s _ (default_write_err address len _ s m.raw _ (str_refused len s hbad))
 
 /-- **typed_roundtrip (bytes)**: exactly `len` bytes are stored verbatim and read back; any other
-length is refused with `InvalidRegisterData` (memory untouched). -/
+length is refused with `InvalidRegisterData`. -/
 theorem typed_roundtrip_bytes (len address : Nat) (ar : AccessRight) (m : Mem) (b : Bytes)
     (hin : address + len ≤ m.raw.length) :
     let r := bytesReg address len ar
@@ -399,16 +388,14 @@ theorem typed_roundtrip_bytes (len address : Nat) (ar : AccessRight) (m : Mem) (
       m.write r b = .ok ({ m with raw := raw' }, m.notifyAll address (address + len)) ∧
       ({ m with raw := raw' } : Mem).read r = .ok b ∧
       ∀ i, i < address ∨ address + len ≤ i → raw'[i]? = m.raw[i]?) ∧
-    (b.length ≠ len → m.write r b = .err .invalidRegisterData ∧ m.afterWrite (m.write r b) = (m, [])) := by
+    (b.length ≠ len → m.write r b = .err .invalidRegisterData) := by
   intro r
   refine ⟨fun hl => ?_, fun hbad => ?_⟩
   · obtain ⟨hs, hp⟩ := bytes_codec len b hl
     obtain ⟨h1, h2, _, h4⟩ := default_roundtrip address len ar bytesParse (bytesSerialize len) b b m.raw
       hs hl hp hin
     exact ⟨mem_write_ok m r b _ h1, h2, h4⟩
-  · have h1 : m.write r b = .err .invalidRegisterData :=
-      mem_write_err m r b _ (default_write_err address len _ b m.raw _ (bytes_refused len b hbad))
-    exact ⟨h1, by rw [h1]; rfl⟩
+  · exact mem_write_err m r b _ (default_write_err address len _ b m.raw _ (bytes_refused len b hbad))
 
 example : (Mem.mk [0, 0, 0, 0, 0, 0] ⟨[0#8, 0#8], 6⟩ [(0, 4)]).write (scalarReg .BE 2 1 2 .RW) 0x1234#16 =
     .ok (⟨[0, 0x12, 0x34, 0, 0, 0], ⟨[0#8, 0#8], 6⟩, [(0, 4)]⟩, [0]) := by decide
@@ -420,35 +407,62 @@ example : (strReg 0 4 .RW).write [0x61, 0x62] [9, 9, 9, 9, 9] = .ok [0x61, 0x62,
 
 /-! ## Bit fields -/
 
+/-- **bitfield declaration**: which `BitField<ty, LSB = l, MSB = m>` literals the macro accepts
+(`BitField::lsb/msb` normalisation + `BitField::verify`): little endian `l ≤ m < w`, big endian
+(bit 0 = most significant) `m ≤ l < w`; the accepted ones have normalised positions
+`lsb ≤ msb < w` — exactly the hypothesis of the theorems below — with `lsb = l`, `msb = m` (LE)
+resp. `lsb = w-1-l`, `msb = w-1-m` (BE). -/
+theorem bitfield_declaration (e : Endian) (w l m : Nat) :
+    ((∃ lsb msb, bfNormalise e w l = some lsb ∧ bfNormalise e w m = some msb ∧ bfVerify w lsb msb = true) ↔
+      (match e with
+        | .LE => l ≤ m ∧ m < w
+        | .BE => m ≤ l ∧ l < w)) ∧
+    (∀ lsb msb, bfNormalise e w l = some lsb → bfNormalise e w m = some msb → bfVerify w lsb msb = true →
+      lsb ≤ msb ∧ msb < w ∧
+      (match e with
+        | .LE => lsb = l ∧ msb = m
+        | .BE => lsb = w - 1 - l ∧ msb = w - 1 - m)) := by
+  cases e
+  · simp only [bfNormalise, bfVerify, Option.some.injEq, Bool.and_eq_true, decide_eq_true_eq]
+    exact ⟨⟨fun ⟨_, _, h1, h2, h3⟩ => by omega, fun h => ⟨l, m, rfl, rfl, h⟩⟩,
+      fun lsb msb h1 h2 h3 => by omega⟩
+  · simp only [bfNormalise, bfVerify, Bool.and_eq_true, decide_eq_true_eq]
+    refine ⟨⟨fun ⟨lsb, msb, h1, h2, h3⟩ => ?_, fun h => ⟨w - l - 1, w - m - 1, ?_, ?_, ?_⟩⟩,
+      fun lsb msb h1 h2 h3 => ?_⟩
+    · split at h1 <;> split at h2 <;> simp at h1 h2 <;> omega
+    · rw [if_pos (by omega)]
+    · rw [if_pos (by omega)]
+    · omega
+    · split at h1 <;> split at h2 <;> simp at h1 h2 <;> omega
+
 /-- **bitfield mask / range**: for every integer width, signedness and positions `lsb ≤ msb < w`
-whose declaration compiles, the generated `mask()` is exactly the bits `lsb..=msb`, the
-macro-time `min`/`max` are `-2^(width-1)`, `2^(width-1)-1` (signed) resp. `0`, `2^width-1`
-(unsigned), and `masked_int` accepts exactly the integers of that range. -/
+the generated `mask()` is exactly the bits `lsb..=msb`, the macro-time `min`/`max` (computed in
+`i128`, cast `as ty`) are `-2^(width-1)`, `2^(width-1)-1` (signed) resp. `0`, `2^width-1`
+(unsigned), and `masked_int` accepts exactly the integers of that range — including the 63 and
+64 bit wide fields of 64-bit types (F-C20-3, repaired). -/
 theorem bitfield_mask_and_range {w : Nat} (hw : IsIntWidth w) (sg : Bool) (lsb msb : Nat) (h : lsb ≤ msb)
-    (hm : msb < w) (mn mx : Int) (hmn : bfMinI64 sg lsb msb = some mn)
-    (hmx : bfMaxI64 sg lsb msb = some mx) (data : BitVec w) :
+    (hm : msb < w) (data : BitVec w) :
     bfMask sg w lsb msb = specMask w lsb msb ∧
     (∀ i, i < w → (bfMask sg w lsb msb).getLsbD i = (decide (lsb ≤ i) && decide (i ≤ msb))) ∧
-    mn = (if sg then -(2 : Int) ^ (msb - lsb) else 0) ∧
-    mx = (if sg then (2 : Int) ^ (msb - lsb) - 1 else (2 : Int) ^ (msb - lsb + 1) - 1) ∧
-    (bfOutOfRange sg data (BitVec.ofInt w mn) (BitVec.ofInt w mx) = false ↔
-      (if sg then mn ≤ data.toInt ∧ data.toInt ≤ mx else (data.toNat : Int) ≤ mx)) := by
-  have hmask := (bf_word hw sg lsb msb h hm mn mx hmn hmx 0#w data).1
-  obtain ⟨h1, h2⟩ := minmax_closed sg lsb msb mn mx hmn hmx
-  exact ⟨hmask, fun i hi => by rw [hmask, specMask_bit lsb msb i hm hi], h1, h2,
-    oor_iff hw sg lsb msb h hm mn mx hmn hmx data⟩
+    bfMin sg lsb msb = (if sg then -(2 : Int) ^ (msb - lsb) else 0) ∧
+    bfMax sg lsb msb = (if sg then (2 : Int) ^ (msb - lsb) - 1 else (2 : Int) ^ (msb - lsb + 1) - 1) ∧
+    (bfOutOfRange sg data (BitVec.ofInt w (bfMin sg lsb msb)) (BitVec.ofInt w (bfMax sg lsb msb)) = false ↔
+      (if sg then bfMin sg lsb msb ≤ data.toInt ∧ data.toInt ≤ bfMax sg lsb msb
+        else (data.toNat : Int) ≤ bfMax sg lsb msb)) := by
+  have hmask := (bf_word hw sg lsb msb h hm _ _ rfl rfl 0#w data).1
+  exact ⟨hmask, fun i hi => by rw [hmask, specMask_bit lsb msb i hm hi], by rw [bfMin], by rw [bfMax],
+    oor_iff hw sg lsb msb h hm _ _ rfl rfl data⟩
 
 /-- **bitfield_isolated_roundtrip** (widths 8/16/32/64, both signs, both byte orders, every
-`lsb ≤ msb < w` that compiles, every old memory content, every in-range value): the typed write
-succeeds; the register's word changes only inside the field (`new & !mask = old & !mask`, mask =
-bits `lsb..=msb`), no byte outside the register changes, `notify_all(range)` fires, and the typed
-read returns the value (sign-extended for signed types). -/
+`lsb ≤ msb < w`, every old memory content, every in-range value): the typed write succeeds; the
+register's word changes only inside the field (`new & !mask = old & !mask`, mask = bits
+`lsb..=msb`), no byte outside the register changes, `notify_all(range)` fires, and the typed read
+returns the value (sign-extended for signed types). -/
 theorem bitfield_isolated_roundtrip {w : Nat} (hw : IsIntWidth w) (e : Endian) (sg : Bool) (lsb msb : Nat)
-    (h : lsb ≤ msb) (hm : msb < w) (mn mx : Int) (hmn : bfMinI64 sg lsb msb = some mn)
-    (hmx : bfMaxI64 sg lsb msb = some mx) (address : Nat) (ar : AccessRight) (m : Mem)
+    (h : lsb ≤ msb) (hm : msb < w) (address : Nat) (ar : AccessRight) (m : Mem)
     (hin : address + w / 8 ≤ m.raw.length) (data : BitVec w)
-    (hr : bfOutOfRange sg data (BitVec.ofInt w mn) (BitVec.ofInt w mx) = false) :
-    let r := bfReg e sg w lsb msb mn mx address (w / 8) ar
+    (hr : bfOutOfRange sg data (BitVec.ofInt w (bfMin sg lsb msb)) (BitVec.ofInt w (bfMax sg lsb msb)) = false) :
+    let r := bfReg e sg w lsb msb (bfMin sg lsb msb) (bfMax sg lsb msb) address (w / 8) ar
     ∃ old new : BitVec w,
       readWord e (w / 8) ((m.raw.drop address).take (w / 8)) = .ok old.toNat ∧
       new &&& ~~~(specMask w lsb msb) = old &&& ~~~(specMask w lsb msb) ∧
@@ -458,38 +472,52 @@ theorem bitfield_isolated_roundtrip {w : Nat} (hw : IsIntWidth w) (e : Endian) (
        ∀ i, i < address ∨ address + w / 8 ≤ i → raw'[i]? = m.raw[i]?) := by
   intro r
   obtain ⟨old, new, raw', h1, h2, h3, h4, h5, h6, h7⟩ :=
-    bf_mem hw e sg lsb msb h hm mn mx hmn hmx address ar m.raw hin data hr
+    bf_mem hw e sg lsb msb h hm _ _ rfl rfl address ar m.raw hin data hr
   subst h3
   exact ⟨old, new, h1, h2, mem_write_ok m r data _ h4, h5, h6, h7⟩
 
 /-- **bitfield_refuses_out_of_range**: a value outside `[min, max]` is refused with
 `InvalidRegisterData` by `serialize` and by the typed write, whatever the memory holds (even if
-the register did not fit); the memory is unchanged and no observer fires. -/
+the register did not fit): `masked_int` runs before the memory is looked at. -/
 theorem bitfield_refuses_out_of_range {w : Nat} (e : Endian) (sg : Bool) (lsb msb : Nat) (mn mx : Int)
     (address len : Nat) (ar : AccessRight) (m : Mem) (data : BitVec w)
     (hr : bfOutOfRange sg data (BitVec.ofInt w mn) (BitVec.ofInt w mx) = true) :
     let r := bfReg e sg w lsb msb mn mx address len ar
-    m.write r data = .err .invalidRegisterData ∧ r.serialize data = .err .invalidRegisterData ∧
-    m.afterWrite (m.write r data) = (m, []) := by
+    m.write r data = .err .invalidRegisterData ∧ r.serialize data = .err .invalidRegisterData := by
   intro r
   obtain ⟨h1, h2⟩ := bf_refused e sg lsb msb mn mx address len ar m.raw data hr
-  have h3 : m.write r data = .err .invalidRegisterData := mem_write_err m r data _ h1
-  exact ⟨h3, h2, by rw [h3]; rfl⟩
-
-/-- **F-C20-3 (documented, cannot be instantiated)**: the macro computes `min`/`max` in `i64`;
-with the overflow checks of a dev-profile proc-macro build the declaration does not compile
-exactly for the signed 64-bit-wide field and for unsigned fields 63 or 64 bits wide (all such
-fields are of 64-bit types); every field of an 8/16/32-bit type compiles. -/
-theorem bitfield_compiles_iff (sg : Bool) (lsb msb : Nat) (h : lsb ≤ msb) (hm : msb < 64) :
-    ((bfMinI64 sg lsb msb).isSome ∧ (bfMaxI64 sg lsb msb).isSome) ↔
-      (if sg then msb - lsb < 63 else msb - lsb + 1 < 63) :=
-  compiles_iff sg lsb msb h hm
+  exact ⟨mem_write_err m r data _ h1, h2⟩
 
 -- i16 field bits 11..=15 over 0x07ff, write -1: only the top five bits change, reads back -1
 example : (bfReg .LE true 16 11 15 (-16) 15 0 2 .RW).write 0xFFFF#16 [0xff, 0x07, 0xAA] = .ok [0xff, 0xff, 0xAA] ∧
     (bfReg .LE true 16 11 15 (-16) 15 0 2 .RW).read [0xff, 0xff, 0xAA] = .ok 0xFFFF#16 ∧
     (bfReg .LE true 16 11 15 (-16) 15 0 2 .RW).write 16#16 [0xff, 0x07, 0xAA] = .err .invalidRegisterData ∧
-    bfMinI64 true 11 15 = some (-16) ∧ bfMaxI64 true 11 15 = some 15 ∧
-    bfMinI64 true 0 63 = none ∧ bfMaxI64 false 0 62 = none := by decide
+    bfMin true 11 15 = -16 ∧ bfMax true 11 15 = 15 ∧
+    bfMax false 0 63 = 18446744073709551615 ∧ bfMin true 0 63 = -9223372036854775808 := by decide
+
+/-! ## State after `new()` -/
+
+/-- **declared rights and init values**: after `new()` the right of byte `i` is the `access =`
+of the last register (fragment order, then declaration order) whose range covers `i`, and `NA`
+where no register lies; and a typed read of a register declared `X = init` returns `init`,
+provided no register initialised after it writes into its bytes (`KeepRange`) and its own
+write/read round-trips (the typed round-trip theorems above). -/
+theorem new_rights_and_inits (frags : List Fragment) (m : Mem) (h : Mem.new frags = .ok m) :
+    (∀ n, memorySize frags = some n → (∀ f ∈ frags, ∀ r ∈ f.regs, r.address + r.length ≤ n) →
+      ∀ i, m.protection.cell i = specRight (frags.flatMap (·.regs)) i .NA) ∧
+    (∀ {α} (reg : Register α) (v : α) (pre post : List RegInit) (r : RegInit),
+      frags.flatMap (·.regs) = pre ++ r :: post → r.init = some (reg.write v) →
+      (∀ x x', reg.write v x = .ok x' → reg.read x' = .ok v) →
+      KeepRange post reg.address reg.length → m.read reg = .ok v) :=
+  ⟨fun n hn hin => new_cells frags m n hn hin h,
+   fun reg v pre post r hs hr hrt hp => new_read_init frags m h reg v pre post r hs hr hrt hp⟩
+
+example : specRight [⟨0, 4, .RW, none⟩, ⟨2, 2, .RO, none⟩, ⟨8, 0, .WO, none⟩] 3 .NA = .RO ∧
+    specRight [⟨0, 4, .RW, none⟩, ⟨2, 2, .RO, none⟩, ⟨8, 0, .WO, none⟩] 1 .NA = .RW ∧
+    specRight [⟨0, 4, .RW, none⟩, ⟨2, 2, .RO, none⟩, ⟨8, 0, .WO, none⟩] 8 .NA = .NA := by decide
+
+example : ∃ m, Mem.new [⟨0, 4, [⟨0, 2, .RO, some ((scalarReg .LE 2 0 2 .RO).write 321#16)⟩, ⟨2, 2, .RW, none⟩]⟩] = .ok m ∧
+    m.read (scalarReg .LE 2 0 2 .RO) = .ok 321#16 ∧ m.protection.cell 1 = .RO ∧ m.protection.cell 2 = .RW :=
+  ⟨_, rfl, by decide, by decide, by decide⟩
 
 end CamVerif.C20
